@@ -482,34 +482,39 @@ Fixpoint index_of (c : byte) (s : str) : option nat :=
   end.
 
 (* atag && aval && !findAttrByValue( *atag, *aval ) *)
-Definition attr_pred (q : option (str * str)) (t : el) : bool :=
+(* findAttrByValue(what, val): attrs_ && (itr = attrs_->find(what)) != end && itr->second == val *)
+Definition find_attr_by_value (what val : str) (t : el) : bool :=
+  match assoc what (el_attrs t) with Some v' => str_eqb v' val | None => false end.
+
+(* the filter is only applied when BOTH pointers are given *)
+Definition attr_pred (q : filt) (t : el) : bool :=
   match q with
-  | None => true
-  | Some (k, v) => match assoc k (el_attrs t) with Some v' => str_eqb v' v | None => false end
+  | (Some k, Some v) => find_attr_by_value k v t
+  | _ => true
   end.
 
-(* find(what, eset, atag, aval, '/'): addresses of the elements inserted into eset, in the
+(* find(what, eset, atag, aval, delim): the root form is the literal "//" whatever delim is; addresses of the elements inserted into eset, in the
    order of the walk; equal_range(nwhat) of the multimap enumerates the children with that tag
    in insertion (= document) order.  Fuel: `what' gets shorter at every call. *)
-Fixpoint find_all (fuel : nat) (root cur : el) (a : addr) (what : str) (q : option (str * str))
+Fixpoint find_all (fuel : nat) (root cur : el) (a : addr) (what : str) (d : byte) (q : filt)
   : list addr :=
   match fuel with
   | O => []
   | S fuel' =>
-    if starts_with [47; 47] what then find_all fuel' root root [] (skipn 2 what) q
+    if starts_with [47; 47] what then find_all fuel' root root [] (skipn 2 what) d q
     else if str_eqb what (el_tag cur) then (if attr_pred q cur then [a] else [])
     else
       match el_kids cur with
       | [] => []
       | _ =>
-        match index_of 47 what with
+        match index_of d what with
         | None => []
         | Some fpos =>
           if str_eqb (firstn fpos what) (el_tag cur) then
             let lwhat := skipn (S fpos) what in
-            let nwhat := match index_of 47 lwhat with None => lwhat | Some p => firstn p lwhat end in
+            let nwhat := match index_of d lwhat with None => lwhat | Some p => firstn p lwhat end in
             List.concat (mapi_from 0 (fun i k => if str_eqb (el_tag k) nwhat
-                                            then find_all fuel' root k (a ++ [i]) lwhat q else [])
+                                            then find_all fuel' root k (a ++ [i]) lwhat d q else [])
                               (el_kids cur))
           else []
         end
@@ -519,26 +524,26 @@ Fixpoint find_all (fuel : nat) (root cur : el) (a : addr) (what : str) (q : opti
 Fixpoint first_some {A : Type} (l : list (option A)) : option A :=
   match l with [] => None | Some x :: _ => Some x | None :: r => first_some r end.
 
-(* find(what, atag, aval, '/') -> first matching element *)
-Fixpoint find_first (fuel : nat) (root cur : el) (a : addr) (what : str) (q : option (str * str))
+(* find(what, atag, aval, delim) -> first matching element *)
+Fixpoint find_first (fuel : nat) (root cur : el) (a : addr) (what : str) (d : byte) (q : filt)
   : option addr :=
   match fuel with
   | O => None
   | S fuel' =>
-    if starts_with [47; 47] what then find_first fuel' root root [] (skipn 2 what) q
+    if starts_with [47; 47] what then find_first fuel' root root [] (skipn 2 what) d q
     else if str_eqb what (el_tag cur) then (if attr_pred q cur then Some a else None)
     else
       match el_kids cur with
       | [] => None
       | _ =>
-        match index_of 47 what with
+        match index_of d what with
         | None => None
         | Some fpos =>
           if str_eqb (firstn fpos what) (el_tag cur) then
             let lwhat := skipn (S fpos) what in
-            let nwhat := match index_of 47 lwhat with None => lwhat | Some p => firstn p lwhat end in
+            let nwhat := match index_of d lwhat with None => lwhat | Some p => firstn p lwhat end in
             first_some (mapi_from 0 (fun i k => if str_eqb (el_tag k) nwhat
-                                                then find_first fuel' root k (a ++ [i]) lwhat q else None)
+                                                then find_first fuel' root k (a ++ [i]) lwhat d q else None)
                                   (el_kids cur))
           else None
         end
@@ -553,11 +558,11 @@ Definition answer (root : el) (qy : query) : str :=
   | None => s_noelem
   | Some cur =>
     if q_first qy
-    then match find_first (find_fuel (q_path qy)) root cur (q_start qy) (q_path qy) (q_attr qy) with
+    then match find_first (find_fuel (q_path qy)) root cur (q_start qy) (q_path qy) (q_delim qy) (q_attr qy) with
          | Some a => render_addr a
          | None => s_none
          end
-    else render_answer (find_all (find_fuel (q_path qy)) root cur (q_start qy) (q_path qy) (q_attr qy))
+    else render_answer (find_all (find_fuel (q_path qy)) root cur (q_start qy) (q_path qy) (q_delim qy) (q_attr qy))
   end.
 
 Definition s_xml_error : str := Eval vm_compute in bs "XML parsing error: ".
